@@ -1,2 +1,95 @@
-From Coq Require Import ZArith List Bool.
-From Verif Require Import Base.Word64 Model.Policy.
+(* Props/C07.v — the eviction policy stays structurally consistent and within bounds.
+   The model (Model/Policy.v) is the W-TinyLFU policy of internal/tlfu.go, slru.go and list.go with
+   the recorded len / count / capacity fields kept separately from the item lists, uint arithmetic
+   wrapped explicitly, and [perr] raised where the Go code would dereference nil or loop forever.
+   PInv p = Core p /\ wsz p <= pcap p (Proof/PolicyI.v, PolicyO.v). *)
+From Coq Require Import ZArith List Bool Permutation.
+From Verif Require Import Base.Word64 Model.Sketch Model.Policy Proof.PolicyL Proof.PolicyI Proof.PolicyT Proof.PolicyO.
+Import ListNotations.
+Open Scope Z_scope.
+
+(* what the invariant says, in plain terms *)
+Theorem c07_meaning : forall p, PInv p ->
+  (* every tracked entry lies in exactly one region *)
+  NoDup (map pid (litems (win p) ++ litems (prob p) ++ litems (prot p))) /\
+  (* recorded size and count of each region are the sum and the number of its entries *)
+  (llen (win p) = sumpw (litems (win p)) /\ lcount (win p) = Z.of_nat (length (litems (win p)))) /\
+  (llen (prob p) = sumpw (litems (prob p)) /\ lcount (prob p) = Z.of_nat (length (litems (prob p)))) /\
+  (llen (prot p) = sumpw (litems (prot p)) /\ lcount (prot p) = Z.of_nat (length (litems (prot p)))) /\
+  (* their total is the policy total, within MaxSize *)
+  wsz p = llen (win p) + llen (prob p) + llen (prot p) /\ wsz p <= pcap p /\
+  (forall e, In e (litems (win p) ++ litems (prob p) ++ litems (prot p)) -> 1 <= pw e <= pcap p) /\
+  (* region capacities: window at least 1, protected not negative, nothing near wrap-around *)
+  1 <= lcap (win p) /\ 0 <= lcap (prot p) /\ lcap (win p) + lcap (prot p) < 2 ^ 61 /\
+  (* no nil dereference happened and no eviction loop ran out of entries *)
+  perr p = false.
+Proof. exact L_meaning. Qed.
+Print Assumptions c07_meaning.
+
+(* one step: Set of an untracked entry of cost 1..MaxSize, Access, Remove, UpdateCost to a cost 1..MaxSize,
+   arbitrary sample counters, arbitrary sketch updates, arbitrary raw climb amounts and admission coins *)
+Theorem c07_step : forall p op, PInv p -> pol_ok p op ->
+  PInv (fst (pol_step p op)) /\
+  lcap (win (fst (pol_step p op))) + lcap (prot (fst (pol_step p op))) = lcap (win p) + lcap (prot p) /\
+  pcap (fst (pol_step p op)) = pcap p.
+Proof. exact L_step. Qed.
+Print Assumptions c07_step.
+
+(* every reachable state: op sequences in which each op meets its guard in the state it is applied to *)
+Theorem c07_invariant : forall ops p, PInv p -> ok_run p ops ->
+  PInv (prun p ops) /\ lcap (win (prun p ops)) + lcap (prot (prun p ops)) = lcap (win p) + lcap (prot p) /\
+  pcap (prun p ops) = pcap p.
+Proof. exact L_invariant. Qed.
+Print Assumptions c07_invariant.
+
+(* a new policy of any size >= 1 whose constructor produced a window capacity >= 1 *)
+Theorem c07_init : forall size wc pc, 1 <= size < 2 ^ 61 -> 1 <= wc -> 0 <= pc -> wc + pc < 2 ^ 61 ->
+  PInv (pol_init [size; wc; pc]).
+Proof. exact L_init. Qed.
+Print Assumptions c07_init.
+
+(* eviction terminates (the fuel 2*entries+6 is never exhausted, no nil dereference) and brings the
+   total within the capacity from ANY consistent state, however far it overshoots; the evicted ids
+   and the surviving entries partition the entries tracked before *)
+Theorem c07_eviction_terminates : forall p rnd, Core p ->
+  let r := evictEntries p rnd in
+  Core (fst r) /\ wsz (fst r) <= pcap (fst r) /\ perr (fst r) = false /\
+  Permutation (map pid (all_items p)) (snd r ++ map pid (all_items (fst r))).
+Proof. exact L_evict. Qed.
+Print Assumptions c07_eviction_terminates.
+
+(* adaptive resizing: whatever raw amount the hill climber produces, the window keeps capacity >= 1,
+   the protected capacity stays >= 0 and their sum is conserved; no entry is lost or duplicated *)
+Theorem c07_resize : forall p a0, Core p -> - two63 < a0 < two63 ->
+  let p' := resizeWindow (climb p a0) in
+  Core p' /\ lcap (win p') + lcap (prot p') = lcap (win p) + lcap (prot p) /\
+  1 <= lcap (win p') /\ 0 <= lcap (prot p') /\ wsz p' = wsz p /\ Permutation (all_items p') (all_items p).
+Proof. exact L_resize. Qed.
+Print Assumptions c07_resize.
+
+(* what each operation does to the tracked set *)
+Theorem c07_set_tracks : forall p e a0 rnd, PInv p -> region p (pid e) = 0 -> 1 <= pw e <= pcap p -> - two63 < a0 < two63 ->
+  Permutation (pid e :: map pid (all_items p)) (snd (pset p e a0 rnd) ++ map pid (all_items (fst (pset p e a0 rnd)))).
+Proof. exact L_set_tracks. Qed.
+Print Assumptions c07_set_tracks.
+
+Theorem c07_access_tracks : forall p id h a0, PInv p -> - two63 < a0 < two63 ->
+  Permutation (all_items (paccess p id h a0)) (all_items p).
+Proof. exact L_access_tracks. Qed.
+Print Assumptions c07_access_tracks.
+
+Theorem c07_update_tracks : forall p id d rnd, PInv p -> upd_ok p id d ->
+  (forall x, In x (all_items (fst (pupdate p id d rnd))) -> In x (set_pw (all_items p) id d)) /\
+  Permutation (map pid (all_items p)) (snd (pupdate p id d rnd) ++ map pid (all_items (fst (pupdate p id d rnd)))).
+Proof. exact L_update_tracks. Qed.
+Print Assumptions c07_update_tracks.
+
+(* non-vacuity: the scenario of the stored seed (capacity 3, probation empty, heavy insert of cost 3)
+   meets every guard; the heavy newcomer loses against the protected entry *)
+Theorem c07_example :
+  let p0 := pol_init [3; 1; 1] in
+  let ops := [[0; 1; 1; 11; 0; 5]; [0; 2; 1; 12; 0; 5]; [1; 1; 11; 0]; [0; 3; 3; 13; 0; 5]] in
+  let p := prun p0 ops in
+  PInv p0 /\ ok_run p0 ops /\ wsz p <=? pcap p = true /\ perr p = false /\ map pid (all_items p) = [1].
+Proof. exact L_example. Qed.
+Print Assumptions c07_example.
